@@ -3,6 +3,7 @@ import Driver.Geom
 import Resvg.Render.Layer
 import Resvg.Render.SizeBook
 import Resvg.Geom.Transform
+import Resvg.Render.Light
 namespace Driver
 open Resvg Resvg.Render Resvg.Geom
 
@@ -76,6 +77,12 @@ def handleRender (op : String) (args : List String) : String :=
       let dy := by_ - (by_ - Float32.ofInt iy)
       showTs ((Transform.fromTranslate (-dx) (-dy)).preConcat outer)
     | _, _, _, _, _ => "bad-op"
+  | "childmax", rest =>
+    match parseIR? rest with
+    | some (mb, rest) => match parseIR? rest with
+      | some (ib, []) => showIR (childMaxBox mb ib)
+      | _ => "bad-op"
+    | none => "bad-op"
   | "maxbbox", [w, h] =>
     match w.toInt?, h.toInt? with
     | some w, some h => match maxBBox w h with
@@ -91,6 +98,16 @@ def handleRender (op : String) (args : List String) : String :=
       | some e => if sizes.length ≤ upto then (s!"{shown} panic:{e}").trimAscii.toString else shown
       | none => shown
     | _, _, _, _, _, _ => "bad-op"
+  | "light", kind :: rest =>
+    match parseTs? rest with
+    | some (ts, [rx, ry, px, py]) =>
+      match rx.toInt?, ry.toInt?, parseHw? px, parseHw? py with
+      | some rx, some ry, some px, some py =>
+        let k := if kind == "spot" then LightKind.spot else LightKind.point
+        let r := transformLightXY k ts (Float32.ofInt rx) (Float32.ofInt ry) (px, py)
+        s!"{showHw r.1} {showHw r.2}"
+      | _, _, _, _ => "bad-op"
+    | _ => "bad-op"
   | "tile", [a, b] =>
     match parseF32? a, parseF32? b with
     | some a, some b => match patternTile a b with
